@@ -165,6 +165,93 @@ def insert_harness(kind: str, cname: str, cls: type, alts: dict[str, str], dict_
     return harness
 
 
+# --------------------------------------------------------------------------- writer task
+def writer_harness(I: Interp) -> None:
+    """`DBHandler._executor_func`, Hoare rule on its `while True` loop (one arbitrary row):
+    `disconnect()` relies on `Queue.join()`, i.e. on the unfinished-task count; a row may be
+    reported done (`task_done`) only when it is in the database (execute + commit returned) or
+    back in the queue *already* (a synchronous put, which raises the count before task_done
+    lowers it) - otherwise join() returns while a row is neither stored nor queued and the row
+    is lost at shutdown."""
+    import asyncio
+    import aiosqlite
+    import gallia.command  # noqa: F401
+    from gallia.db import handler as H
+    from pyvc import loops as L
+    log: list[tuple[str, Any]] = []
+    item = {"v": None}
+
+    def qget(I2: Interp, recv: V, args: list[V], kwargs: dict[str, V]) -> V:
+        def go() -> V:
+            if I2.choose([z3.BoolVal(True)] * 2) == 1:
+                raise PyExc(VObj(asyncio.CancelledError, {"args": VTuple([])}))
+            q = VStr(t=z3.String(I2.fresh_name("query")))
+            p = VTuple([VObj(Stub, {}, lazy=True, tag=f"col{i}") for i in range(12)])
+            item["v"] = (q, p)
+            log.append(("get", None))
+            return VTuple([q, p])
+        return coro(go)
+    I.ex.stubs[("queue", "get")] = qget
+
+    def db_op(name: str):
+        def c(I2: Interp, recv: V, args: list[V], kwargs: dict[str, V]) -> V:
+            def go() -> V:
+                if I2.choose([z3.BoolVal(True)] * 2) == 1:
+                    log.append((name + "-failed", None))
+                    raise PyExc(VObj(aiosqlite.OperationalError, {"args": VTuple([])}))
+                log.append((name, tuple(args)))
+                return NONE
+            return coro(go)
+        return c
+    I.ex.stubs[("conn", "execute")] = db_op("execute")
+    I.ex.stubs[("conn", "commit")] = db_op("commit")
+
+    def put_back(I2: Interp, recv: V, args: list[V], kwargs: dict[str, V]) -> V:
+        log.append(("put", args[0]))
+        return coro(lambda: NONE)
+    I.ex.stubs[("queue", "put")] = put_back
+    I.ex.stubs[("queue", "put_nowait")] = lambda I2, r, a, k: (log.append(("put", a[0])), NONE)[1]
+    I.ex.stubs[("queue", "task_done")] = lambda I2, r, a, k: (
+        log.append(("task_done", None)), NONE)[1]
+    # a deferred callback does nothing *now*
+    models.MODELS[asyncio.get_running_loop] = lambda I2, a, k: VObj(Stub, {}, lazy=True, tag="loop")
+    models.MODELS[asyncio.get_event_loop] = models.MODELS[asyncio.get_running_loop]
+    I.ex.stubs[("loop", "call_later")] = lambda I2, r, a, k: (log.append(("deferred", a)), NONE)[1]
+    I.ex.stubs[("loop", "call_soon")] = I.ex.stubs[("loop", "call_later")]
+    h = VObj(H.DBHandler, {"connection": VObj(Stub, {}, lazy=True, tag="conn"),
+                           "_execute_queue": VObj(Stub, {}, lazy=True, tag="queue")},
+             lazy=True, tag="handler")
+
+    def havoc(I2: Interp, fr: Frame) -> None:
+        log.clear()
+        for nme in ("query", "query_parameter"):
+            fr.env.pop(nme, None)
+            fr.poison.add(nme)
+
+    def inv(I2: Interp, fr: Frame) -> list[tuple[str, Any]]:
+        if I2.ghost["__loop_phase"] != "preserved":
+            return []
+        names = [n for n, _ in log]
+        out = [("one-row-taken-one-row-reported-done",
+                z3.BoolVal(names.count("get") == 1 and names.count("task_done") == 1))]
+        if "task_done" in names:
+            before = log[:names.index("task_done")]
+            q, p = item["v"]
+            stored = any(n == "execute" and a and a[0] is q and a[1] is p for n, a in before) \
+                and any(n == "commit" for n, _ in before)
+            requeued = any(n == "put" and isinstance(a, VTuple) and a.items[0] is q
+                           and a.items[1] is p for n, a in before)
+            out.append(("a-row-is-reported-done-only-when-it-is-stored-or-back-in-the-queue",
+                        z3.BoolVal(stored or requeued)))
+            out.append(("a-stored-row-is-not-queued-again", z3.BoolVal(not (stored and requeued))))
+        return out
+    I.ex.loop_contracts[("DBHandler._executor_func", 0)] = L.LoopContract(havoc, inv)
+    try:
+        I.await_v(I.call_v(I.getattr_v(h, "_executor_func"), [], {}))
+    except PyExc as e:
+        I.fail("X-writer-task-ends-quietly-when-cancelled", e.exc.cls.__name__)
+
+
 # --------------------------------------------------------------------------- ECU._request
 OUTCOMES = ["return", "response-exception", "other-exception", "cancelled", "illegal-response"]
 
@@ -363,7 +450,8 @@ def setter_harness(I: Interp) -> None:
 
 
 def build_units(tier: str) -> list[Unit]:
-    units: list[Unit] = [Unit("scanner/UDSScanner.setup", scanner_setup_harness),
+    units: list[Unit] = [Unit("writer/_executor_func", writer_harness),
+                         Unit("scanner/UDSScanner.setup", scanner_setup_harness),
                          Unit("scanner/implicit_logging.setter", setter_harness)]
     for lg in (True, False):
         for db in (True, False):
@@ -565,6 +653,8 @@ def native_scanner_setup() -> tuple[bool, str]:
 def native_replay(unit: str, obligation: str, model: dict) -> tuple[bool, str]:
     """Insert a long request / the offending response class into a real sqlite database and read
     the row back."""
+    if unit.startswith("writer/"):
+        return native_writer_shutdown()
     if unit.startswith("ECU._request/"):
         return native_ecu_request()
     if unit.startswith("scanner/"):
@@ -624,6 +714,66 @@ def native_replay(unit: str, obligation: str, model: dict) -> tuple[bool, str]:
         return bad, (f"rows (request, reply) {rows} for the reply {resp.pdu.hex()} logged with "
                      f"and without a receive time (error: {err})")
     return bad, f"stored row {rows} for request {want} (error: {err})"
+
+
+def native_writer_shutdown() -> tuple[bool, str]:
+    """three exchanges; the database is locked by another connection while the third row is
+    written and while disconnect() runs; the lock goes away 1 s later: all three rows must be
+    in the file"""
+    import asyncio
+    import logging
+    import os
+    import shutil
+    import sqlite3
+    import tempfile
+    from pathlib import Path
+    logging.disable(logging.CRITICAL)
+    import gallia.command  # noqa: F401
+    from gallia.command.config import GalliaBaseModel as GBM
+    from gallia.db.handler import DBHandler, LogMode
+    S = service_module()
+    tmp = tempfile.mkdtemp(prefix="c11w_")
+    path = os.path.join(tmp, "w.sqlite")
+
+    async def go() -> None:
+        h = DBHandler(Path(path))
+        await h.connect()
+        await h.insert_run_meta(script="x", config=GBM(), start_time=datetime.now().astimezone(),
+                                path=None)
+        await h.insert_scan_run("c11://writer")
+        assert h.connection is not None
+        await h.connection.execute("PRAGMA busy_timeout = 50")
+
+        async def row(i: int) -> None:
+            await h.insert_scan_result({"session": 1}, S.RawRequest(bytes([0x22, 0, i])),
+                                       S.RawPositiveResponse(bytes([0x62, 0, i])), None,
+                                       datetime.now().astimezone(), datetime.now().astimezone(),
+                                       LogMode.implicit)
+        await row(1)
+        await row(2)
+        await asyncio.sleep(0.2)
+        other = sqlite3.connect(path, timeout=0.05, isolation_level=None)
+        other.execute("BEGIN IMMEDIATE")
+        await row(3)
+        await asyncio.sleep(0.2)
+        asyncio.get_running_loop().call_later(1.0, lambda: (other.execute("ROLLBACK"),
+                                                            other.close()))
+        await asyncio.wait_for(h.disconnect(), 10)
+    err = None
+    try:
+        asyncio.run(go())
+    except Exception as e:  # noqa: BLE001
+        err = f"{type(e).__name__}: {e}"
+    n = -1
+    try:
+        con = sqlite3.connect(path)
+        n = con.execute("select count(*) from scan_result").fetchone()[0]
+        con.close()
+    except Exception as e:  # noqa: BLE001
+        err = (err or "") + f" / {e}"
+    shutil.rmtree(tmp, ignore_errors=True)
+    return n != 3, (f"{n} of 3 exchanges are in the database after disconnect() (the database was "
+                    f"locked by another connection for 1 s around the shutdown; error: {err})")
 
 
 def native_search(unit: str, obligation: str, seed: int) -> dict | None:
